@@ -1059,6 +1059,8 @@ static void exec_gensalt(Run &r, int t, int i, const J &op) {
   int nrb = op.has("nrb") ? (int)op.i("nrb") : (int)rb.b.size();
   if (!rb.null && nrb > (int)rb.b.size()) crash_exit("machinery", "plan offers more random bytes than its buffer holds (a caller error, never a plan)");
   int osz = kind == "gensalt_rn" ? (int)op.i("osz", CRYPT_GENSALT_OUTPUT_SIZE) : CRYPT_GENSALT_OUTPUT_SIZE;
+  // the reference evaluates the same entry point (reserved sizes select crypt_gensalt_ra / crypt_gensalt in refsrv)
+  int ref_osz = kind == "gensalt_ra" ? -2000000001 : kind == "gensalt" ? -2000000002 : osz;
   char *outbuf = nullptr;
   if (kind == "gensalt_rn") { outbuf = (char *)malloc((size_t)(osz > 0 ? osz : 1)); garbage_fill(outbuf, (size_t)(osz > 0 ? osz : 1), 5); thr::region_add(outbuf, (size_t)(osz > 0 ? osz : 1), t, "gensalt-out"); }
   sig_add(r, kind + ":" + (prefix.null ? "NULL" : prefix.b) + ":" + (rb.null ? "auto" : "explicit"));
@@ -1109,7 +1111,7 @@ static void exec_gensalt(Run &r, int t, int i, const J &op) {
   auto &draws = EntropyDev::get().draws[t];
   RefOut exp; bool have_exp = false, exp_fail = false;
   if (fv.effective > 0) { exp_fail = true; have_exp = true; }
-  else if (!rb.null) { exp = RefClient::get().gensalt(prefix, count, rb, nrb, osz); have_exp = true; }
+  else if (!rb.null) { exp = RefClient::get().gensalt(prefix, count, rb, nrb, ref_osz); have_exp = true; }
   else if (draws.empty()) { exp_fail = true; have_exp = true; }   // auto-entropy requested, nothing drawn: only failure is legitimate
   else if (op.i("noref")) { stat("gensalt_calls_checked_without_reference"); }   // marathon histories: a draw happened; what it was turned into is not looked at
   else {
@@ -1137,7 +1139,7 @@ static void exec_gensalt(Run &r, int t, int i, const J &op) {
     else {
       bool found = false, first = true;
       for (auto &c : cands) {
-        RefOut e2 = RefClient::get().gensalt(prefix, count, Bytes(c), (int)c.size(), osz);
+        RefOut e2 = RefClient::get().gensalt(prefix, count, Bytes(c), (int)c.size(), ref_osz);
         if (e2.bad) crash_exit("machinery", ("refsrv: " + e2.raw).c_str());
         if (first) { exp = e2; first = false; }
         if (failed ? !e2.ok : (e2.ok && e2.str == res)) { exp = e2; found = true; break; }
@@ -1148,7 +1150,7 @@ static void exec_gensalt(Run &r, int t, int i, const J &op) {
           for (int side = 0; side < 2 && !found; side++)
             for (size_t L = all.size() - 1; L >= need && L < all.size() && !found; L--) {
               std::string part = side == 0 ? all.substr(0, L) : all.substr(all.size() - L);
-              RefOut e2 = RefClient::get().gensalt(prefix, count, Bytes(part), (int)L, osz);
+              RefOut e2 = RefClient::get().gensalt(prefix, count, Bytes(part), (int)L, ref_osz);
               if (e2.bad) crash_exit("machinery", "refsrv");
               if (e2.ok && e2.str == res) { exp = e2; found = true; stat("incidental_salt_from_part_of_the_draw"); }
             }
@@ -1214,7 +1216,7 @@ static void exec_gensalt(Run &r, int t, int i, const J &op) {
       int conf = (g_rngdev.variant & 7) | 8;
       for (int k = 0; k < 4; k++)
         if ((conf & bits[k]) && !g_rngdev.failed_sources.count(src[k])) {
-          RefOut would = RefClient::get().gensalt(prefix, count, Bytes(std::string(64, 'x')), 64, osz);
+          RefOut would = RefClient::get().gensalt(prefix, count, Bytes(std::string(64, 'x')), 64, ref_osz);
           if (would.ok) violation(nullptr, "no-progress-after-faults", t, i, vfmt("%s failed although no fault was injected in this call and source '%s' has never failed in this process", kind.c_str(), src[k]));
           break;
         }
